@@ -228,8 +228,9 @@ OnlyRenderFixed == [renderTest |-> TRUE, macroTagCtx |-> FALSE]
 FormatOfCtx(ctx) == IF ctx = "attr" THEN "other" ELSE ctx
 \* canOptimizeShowMacro (format part): `from == to || from == Markdown && to == HTML`, never above ContextMarkdown
 CanOptimize(from, ctx) == ctx # "attr" /\ (from = FormatOfCtx(ctx) \/ (from = "md" /\ FormatOfCtx(ctx) = "html"))
-\* what the end of an HTML tag resets the lexer context to (lexer.go: `l.ctx = l.tag.ctx`, and tag.ctx is
-\* Markdown in a Markdown file, HTML in every other file); tags are seen in HTML and Markdown contexts only
+\* what the end of an HTML tag resets the lexer context to (lexer.go: `l.ctx = l.tag.ctx; l.tag.ctx = fileContext`,
+\* and tag.ctx starts as Markdown in a Markdown file, HTML in every other file: so the first tag of a .txt/.js file
+\* resets to HTML and the later ones to the file's own context); tags are seen in HTML and Markdown contexts only
 TagCtx(f) == IF f = "md" THEN "md" ELSE "html"
 SeesTags(ctx) == ctx \in {"html", "md"}
 
@@ -261,8 +262,10 @@ ImplBody(FS, home, env, ctx, tagctx, body, i, rs, V) ==
   ELSE LET n == body[i] IN
     IF n.n = "text" THEN
       \* after an HTML tag the lexer context becomes tag.ctx
-      LET ctx2 == IF n.a = "G" /\ SeesTags(ctx) /\ ~V.macroTagCtx THEN tagctx ELSE ctx IN
-      ImplBody(FS, home, env, ctx2, tagctx, body, i + 1, Put(rs, Atom[n.a].b), V)
+      LET tag == n.a = "G" /\ SeesTags(ctx)
+          ctx2 == IF tag /\ ~V.macroTagCtx THEN tagctx ELSE ctx
+          tagctx2 == IF tag THEN home.fmt ELSE tagctx IN
+      ImplBody(FS, home, env, ctx2, tagctx2, body, i + 1, Put(rs, Atom[n.a].b), V)
     ELSE IF n.n = "show" THEN
       ImplBody(FS, home, env, ctx, tagctx, body, i + 1,
                Put(rs, Wrap(n.pl, Esc(ShowRule("string", CtxAt(ctx, n.pl)), Atom[n.a].b))), V)
@@ -423,9 +426,9 @@ ShowSites(FS) ==   \* [ctx, node, dir] of every show-like node, in file bodies a
          : k \in 1..Len(FS)}
 MismatchedRender(FS) ==
   \E st \in ShowSites(FS) : st.node.n = "render" /\ ~CanOptimize(RunFile(FS, FileAt(FS, Resolve(st.dir, st.node.ref))).fmt, st.ctx)
-\*  (2) a tag in the body of a macro whose explicit type is html/markdown but not what a tag of the file resets to
+\*  (2) a tag in the body of a macro whose explicit type is html/markdown and not the file's format
 ForeignTagMacro(FS) ==
   \E k \in 1..Len(FS) :
-     \E m \in NodesOf(FS[k], "macro") : /\ m.ty # "" /\ SeesTags(FmtOfTy(m.ty)) /\ FmtOfTy(m.ty) # TagCtx(FS[k].fmt)
+     \E m \in NodesOf(FS[k], "macro") : /\ m.ty # "" /\ SeesTags(FmtOfTy(m.ty)) /\ FmtOfTy(m.ty) # FS[k].fmt
                                         /\ \E j \in 1..Len(m.body) : m.body[j] = TextN("G")
 =============================================================================
